@@ -32,6 +32,12 @@ unsafe impl GlobalAlloc for CountingAlloc {
     }
     unsafe fn dealloc(&self, p: *mut u8, l: Layout) {
         note();
+        // poison what is given back: a reader that still holds a pointer into a freed block (a
+        // channel replaced under a scanning consumer, a snapshot freed too early) then trips over
+        // garbage instead of silently reading plausible stale data
+        if l.size() <= 4096 {
+            std::ptr::write_bytes(p, 0xFF, l.size());
+        }
         System.dealloc(p, l)
     }
     unsafe fn realloc(&self, p: *mut u8, l: Layout, n: usize) -> *mut u8 {
